@@ -1500,6 +1500,64 @@ fn step_inner(ex: &mut Exec, st: &mut L1State, op: &str, toks: &[&str]) -> Optio
             };
             Some(hex_or_dash(&h))
         }
+        // oracle-only (C18): the VRF input of (label, freshness, version) for EVERY label length up to `max`: altering the version
+        // (lowest byte, a middle byte, highest byte), the freshness, the last label byte or the label length changes the input
+        "o.vrfin.sweep" if toks.len() == 3 => {
+            let cfg = toks[1];
+            let max: usize = toks[2].parse().ok()?;
+            let mut bad: Option<String> = None;
+            let mut n = 0usize;
+            for len in 0..=max {
+                let l: Vec<u8> = (0..len).map(|i| (i * 7 + len) as u8).collect();
+                let u = AkdLabel(l.clone());
+                for v in [1u64, 0x0102_0304_0506_0708] {
+                    for fresh in [VersionFreshness::Fresh, VersionFreshness::Stale] {
+                        let other = match fresh { VersionFreshness::Fresh => VersionFreshness::Stale, _ => VersionFreshness::Fresh };
+                        let h = |u: &AkdLabel, f: VersionFreshness, v: u64| -> Vec<u8> {
+                            match cfg {
+                                "wv1" => Wv1::get_hash_from_label_input(u, f, v),
+                                _ => Exp::get_hash_from_label_input(u, f, v),
+                            }
+                        };
+                        let base = h(&u, fresh, v);
+                        let mut alts: Vec<(String, Vec<u8>)> = vec![
+                            ("version low byte".into(), h(&u, fresh, v ^ 1)),
+                            ("version low byte +1".into(), h(&u, fresh, v.wrapping_add(1))),
+                            ("version middle byte".into(), h(&u, fresh, v ^ (1 << 24))),
+                            ("version high byte".into(), h(&u, fresh, v ^ (1 << 63))),
+                            ("freshness".into(), h(&u, other, v)),
+                        ];
+                        if len > 0 {
+                            let mut l2 = l.clone();
+                            l2[len - 1] ^= 0x80;
+                            alts.push(("last label byte".into(), h(&AkdLabel(l2), fresh, v)));
+                            let mut l3 = l.clone();
+                            l3[0] ^= 1;
+                            alts.push(("first label byte".into(), h(&AkdLabel(l3), fresh, v)));
+                        }
+                        let mut l4 = l.clone();
+                        l4.push(0);
+                        alts.push(("label extended by a zero byte".into(), h(&AkdLabel(l4), fresh, v)));
+                        for (what, a) in alts {
+                            n += 1;
+                            if a == base && bad.is_none() {
+                                bad = Some(format!("label of {len} bytes, version {v}: altering the {what} leaves the VRF input unchanged"));
+                            }
+                        }
+                    }
+                }
+            }
+            match bad {
+                Some(w) => {
+                    ex.fail_tag("C18", "vrf-input-collision", format!("{:?}: {}", toks, w));
+                    Some("FAIL".into())
+                }
+                None => {
+                    ex.stats.bump(op, "ok");
+                    Some(format!("ok {n}"))
+                }
+            }
+        }
         // oracle-only (C18): determinism, agreement of the three ways to derive a node label, verification of the
         // honest proof, rejection of every single-field alteration, key separation
         "o.vrf.check" if toks.len() == 5 => {
